@@ -726,9 +726,9 @@ def main(ctx):
 
     # 3. cases
     corpus = load_corpus()
-    n_prog = 36 if quick else 600
-    n_prim = 24 if quick else 450
-    n_scan = 120 if quick else 2000
+    n_prog = 36 if quick else 1000
+    n_prim = 24 if quick else 700
+    n_scan = 120 if quick else 3000
     n_memo = 300 if quick else 4000
     cases = []
     meta = []
